@@ -65,6 +65,8 @@ SetLen == \E k \in 1..Len(A), c \in LenClasses :
 SetHeader == \E k \in 1..2, c \in {"zero", "plus1", "big", "huge", "max"} :
              /\ art = "witness"
              /\ Mutate([kind |-> "sethdr", atom |-> k, cls |-> c])
+\* both header words raised by 2^31: their 32-bit sum wraps back onto the true vector length
+WrapHeader == art = "witness" /\ Mutate([kind |-> "wraphdr"])
 Trailing == \E n \in {1, 64} : Mutate([kind |-> "trail", n |-> n])
 FlipIn == \E k \in 1..Len(A), w \in {"first", "last"} :
              /\ A[k].k \in {"G1", "G2", "Fr"}
@@ -86,6 +88,7 @@ Predicted ==
          "error-or-reshaped"
     [] mut.kind = "setlen" -> "error-or-reshaped"    \* zero / minus1: later atoms are read from shifted bytes
     [] mut.kind = "sethdr" -> "error-or-inconsistent" \* header words disagree with the vector
+    [] mut.kind = "wraphdr" -> "error-or-inconsistent"
     [] mut.kind = "flip" -> "error-or-other-value"
 
 Behaviour == [artifact |-> art, shape |-> shape, enc |-> enc, mut |-> mut, atoms |-> A, predicted |-> Predicted]
@@ -95,12 +98,12 @@ Finish ==
   /\ IF Emit THEN PrintT("BEH" \o ToJson(Behaviour)) ELSE TRUE
   /\ UNCHANGED <<art, shape, enc, mut>>
 
-Next == TruncAt \/ SetLen \/ SetHeader \/ Trailing \/ FlipIn \/ Empty \/ Finish
+Next == TruncAt \/ SetLen \/ SetHeader \/ WrapHeader \/ Trailing \/ FlipIn \/ Empty \/ Finish
 Spec == Init /\ [][Next]_vars
 
 (* every slice prefix is followed by exactly its elements, of its kind: the layouts are well-formed *)
 LayoutOK == \A k \in 1..Len(A) : A[k].k = "Len" =>
                /\ k + A[k].n <= Len(A)
                /\ \A j \in 1..A[k].n : A[k + j].k = A[k].of
-MutOK == mut.kind \in {"none", "trunc", "setlen", "sethdr", "trail", "flip", "empty"}
+MutOK == mut.kind \in {"none", "trunc", "setlen", "sethdr", "wraphdr", "trail", "flip", "empty"}
 =============================================================================
